@@ -219,7 +219,9 @@ class BO(Conversions):
         super().__setitem__(key, value)
 
         for i in key:
-            if i not in self._mapping:
+            # only labels that became variables of the model are enumerated
+            # (not those of a zero-valued or squashed-away assignment)
+            if i in self._variables and i not in self._mapping:
                 self._mapping[i] = self._next_label
                 self._reverse_mapping[self._next_label] = i
                 self._next_label += 1
